@@ -18,7 +18,7 @@ RULE = ('a seeded generator draws abstract messages (headers: SPIs, exchange typ
         'mutants of them); (4) unknown non-critical payloads are skipped leaving the others intact, unknown critical ones raise '
         'UnsupportedCriticalPayload, a chain that ends before / after the end of the data (truncation, trailing octets, last length +-k) raises '
         'InvalidSyntax whenever the reference says the chain does not tile the data; (5) to_dict()/json dump lists the payload types in order and '
-        'shows every decoded field (hex octets, decimal numbers, enum names, textual addresses) and never raises. distinct = (payload type multiset, oracle).')
+        'shows every decoded field (hex octets, decimal numbers, enum names, textual addresses) and never raises; (6) a Message object already serialised is edited (payload inserted first / appended / removed, Message ID, exchange type) and serialised again: exactly the reference encoding of the edited content. distinct = (payload type multiset, oracle).')
 ASSUMPTIONS = ['only RFC-valid abstract content is generated for the encoder comparison (critical bit 0 on known payloads, reserved 0, transforms with at most the key-length attribute)',
                'the dump oracle accepts text or hex for textual identities / vendor ids']
 SHARDS = {'quick': 8, 'thorough': 16}
@@ -259,6 +259,9 @@ def run(ck):
                     where = 'not-authentic-under-the-reference'
                 ck.violation(f'protected-serialisation-differs-from-reference:{where}', case, case)
             data = ref
+        # ---- (6) a Message is mutable and the daemon edits one it already serialised (COOKIE retry): the next to_bytes() must describe the edited content
+        if i % 4 == 0:
+            edited(ck, rng, m, objs, crypto, iv if enc else None, i, case)
         # ---- (2) decoder differential
         try:
             parsed = M.Message.parse(data, header_only=False, crypto=crypto)
@@ -313,6 +316,42 @@ def run(ck):
             ck.nontrivial(('mutant-fixed-point', len(v) // 32))
             if b1 != b2:
                 ck.violation('serialise-after-parse-is-not-idempotent', {'mutant': v, 'first': b1, 'second': b2}, {'mutant': v})
+
+
+def edited(ck, rng, m, objs, crypto, iv, i, case):
+    mo = message_obj(m, list(objs), crypto, iv)
+    first = bytes(mo.to_bytes())
+    m2 = dict(m, payloads=list(m['payloads']))
+    lst = mo.encrypted_payloads if crypto is not None else mo.payloads
+    kind = ('insert-cookie-first', 'append-notify', 'remove-first', 'message-id', 'exchange-type')[(i // 4) % 5]
+    extra = {'type': 41, 'critical': False, 'proto': 0, 'spi': b'', 'ntype': 16390, 'data': gen.rb(rng, rng.randrange(1, 64))}
+    if kind == 'insert-cookie-first':
+        lst.insert(0, build_payload(extra))
+        m2['payloads'].insert(0, extra)
+    elif kind == 'append-notify':
+        lst.append(build_payload(extra))
+        m2['payloads'].append(extra)
+    elif kind == 'remove-first':
+        if not lst:
+            return
+        del lst[0]
+        del m2['payloads'][0]
+    elif kind == 'message-id':
+        mo.message_id = m2['mid'] = (m['mid'] + 1) % 2 ** 32
+    else:
+        m2['exch'] = 34 + (m['exch'] + 1) % 4
+        mo.exchange_type = M.Message.Exchange(m2['exch'])
+    second = bytes(mo.to_bytes())
+    ck.count(f'edited.{kind}')
+    if crypto is None:
+        want = codec.encode_clear(m2)
+    else:
+        iid = {12: 2, 16: 12, 32: 14}[crypto.integrity.hash_size]
+        hdr = {k: m2[k] for k in ('spi_i', 'spi_r', 'major', 'minor', 'exch', 'flags', 'mid')}
+        want = ikecrypto.sk_seal(hdr, m2['payloads'], iid, bytes(crypto.sk_a), bytes(crypto.sk_e), iv)
+    if second != want:
+        what = 'still-the-octets-of-the-first-serialisation' if second == first else 'differs-from-the-reference-encoding-of-the-edited-content'
+        ck.violation(f'serialisation-after-an-edit:{what}', {'edit': kind, 'got': second[:64], 'want': want[:64], **case}, case)
 
 
 def framing(ck, rng, m, data):
@@ -381,6 +420,7 @@ def verdict(ck):
     c = ck.counters
     for t in (33, 34, 35, 36, 39, 40, 41, 42, 43, 44, 45):
         ck.floor(f'payload type {t} instances', c[f'payloads.type{t}'], 200)
+    ck.floor('messages serialised again after an edit', sum(v for k, v in c.items() if k.startswith('edited.')), 800)
     ck.floor('encrypted messages', c['encode.sk_compared'], 500)
     ck.floor('multi-proposal SAs with SPIs', c['payloads.multi_proposal_sa_with_spi'], 100)
     ck.floor('IPv6 selectors', c['payloads.ipv6_selectors'], 100)
